@@ -214,17 +214,18 @@ CLAIMS = {
         note=COMMON_NOTE + "Domain: an explicit eval_resolution passed to fill_forward_gaps must divide the row's lag "
              "differences; backfill has no per-slice completeness clause (see DESIGN §12.2).",
         tech="Lean 4 theorems (membership/structure of added cells) + Spec predicates on implementation outputs"),
-    "C10": dict(level=TV, ref="§7 C10",
-        text="47 kernel-checked theorems about the model of join (six types, with and without `on`), merge, coalesce, "
+    "C10": dict(level=PV, ref="§7 C10",
+        text="82 kernel-checked theorems, none open, about the model of join (six types, with and without `on`), merge, coalesce, "
              "add_statics and period_merge: join_keys (key multiset = the relational set expression for all six types, "
              "no distinctness hypothesis), join_pairs_exact, join_carries_originals, join_on_metadata, merge_values "
              "(right wins), merge_unmatched_id, merge_self, coalesce_first_wins, addStatics_spec, periodMerge_spec. "
-             "Five statements remain OPEN (three Bool-bridge lemmas, select_merge_recombine, regrouping equivalence), "
-             "hence translation_validation: the model is validated against /repo on every run exhaustively over all "
+             "select_merge_recombine (split fields with select, merge back, get the original), the literal per-slice "
+             "regrouping loops proved equal to the direct forms, and the Bool Spec bridges. The model is validated against /repo on every run exhaustively over all "
              "pairs (triples for coalesce) of sub-triangles of a small cell universe x six join types x every `on` "
              "subset plus random larger pairs, with the Lean Spec predicates on the implementation's outputs.",
-        note=COMMON_NOTE + "OPEN statements are listed in the evidence (open_statements).",
-        tech="Lean 4 theorems on a relational model + exhaustive small-universe differential correspondence"),
+        note=COMMON_NOTE + "Hypotheses: distinct join keys inside each operand and distinct dict keys (as Python dict "
+             "building assumes); duplicates are a separate stream compared with the model only.",
+        tech="Lean 4 proof on a relational model + exhaustive small-universe differential correspondence"),
     "C16": dict(level=PV, ref="§7 C16",
         text="PARTIAL (the statistical clause 'follows the weights' and numpy's RNG are outside the model; everything structural and algebraic is proved). 29 kernel-checked theorems, none open, about the model of blend: linear_value (out = sum w_j v_j with scalar "
              "broadcast), linear_convex, linear_agree, percell_alignment, global/list/dict weight normalisation, "
